@@ -152,6 +152,16 @@ def run(tier: str) -> int:
         progs.append((sp["name"], sp["sources"], None))
     for name, srcs in base.repo_sources():
         progs.append((name, srcs, None))
+    from . import c13
+
+    progs.append(("multi:fixed", c13.FIXED_MULTI, None))
+    progs.append(("multi:early_return", {"": HDR + "from library import mylib\n\ndef clamp(x):\n    if x > 9:\n        return 9\n    return x\n\ndb.Setting = mylib.clamp(d0.Setting)\ndb.Mode = mylib.clamp(d1.Setting)\ndb.On = clamp(d2.Setting)\ndb.Open = clamp(3)\n",
+                                          "mylib": HDR + "\ndef clamp(x):\n    if x > 5:\n        return 5\n    if x < 0:\n        return 0\n    return x\n"}, "component"))
+    progs.append(("multi:early_return_unique", {"": HDR + "from library import mylib as ml\n\ndb.Setting = ml.limit(d0.Setting)\ndb.Mode = ml.limit(d1.Setting)\n",
+                                                 "mylib": HDR + "\ndef limit(x):\n    if x > 5:\n        return 5\n    d3.Setting = x\n    return x\n"}, None))
+    for i in range(20 if tier == "thorough" else 5):
+        srcs, _f = c13.gen_multi(harness.seed() * 4099 + i + 1)
+        progs.append((f"multi:{i}", srcs, None))
     progs += name_programs(tier)
     items = []
     for name, src, expect in progs:
@@ -169,7 +179,13 @@ def run(tier: str) -> int:
         jumps += r.get("jumps", 0)
         for pr in r["problems"]:
             k = None
-            if spec["expect"]:
+            if spec["expect"] == "component":
+                # the recorded mechanism: remove_labels corrupts a label into <number>.<rest> / <rest>.<number>
+                import re as _re
+
+                if pr["kind"] == "not_line_for_line" or (pr["kind"] == "delabelled_unloadable" and _re.search(r"[0-9]+\.[A-Za-z_]|[A-Za-z_]\.[0-9]+", str(pr["detail"]))):
+                    k = next((x for x in known if x.get("mechanism") == "component"), None)
+            elif spec["expect"]:
                 k = next((x for x in known if x.get("mechanism") == spec["expect"]), None)
             if k is None:
                 k = next((x for x in known if x.get("program") and spec["name"].startswith(x["program"] + "@") and x.get("kind") == pr["kind"]), None)
